@@ -20,13 +20,14 @@
     over the complement: offsets with seconds (C20_seconds_offset_refuted / C20_serde_roundtrip_dt_fixed),
     leap-second fraction off second 59 (C20_leap_off_minute_refuted / C20_serde_roundtrip_time, _ndt),
     wall clock outside the date range (C20_wall_clock_refuted / C20_serde_roundtrip_dt_fixed).
-    Gap (named): for zone-aware values whose leap-second fraction is NOT on second 59 the property
-    asks for the same instant only; that case is covered by the correspondence run and the judge,
-    not by a theorem (C20_serde_roundtrip_dt_* are stated on [dtz_dom]). *)
+    Zone-aware values whose leap-second fraction is NOT on second 59 (the property asks for the same
+    instant only): C20_serde_roundtrip_dt_leap_off_minute; C20_serde_roundtrip_dt_* are stated on
+    [dtz_dom].  Every op of the dispatcher: C20_dispatch, C20_holds (coverage/OPS_THEOREMS_C20.md). *)
 From Coq Require Import ZArith List Bool String.
 From V Require Import Base.Int Base.IO Gen.SerdeConsts Model.Scan Model.TimeDelta Model.DateTime Model.Serde
   Proofs.C20Delta Proofs.C20Ts Proofs.C20Text Proofs.C20 Proofs.C20Holds Model.C20.
 From V Require Judge.C20.
+From V Require Proofs.C20HoldsTs Proofs.C20HoldsRt Proofs.C20HoldsAll Proofs.C20Ops Model.FromStr.
 From V Require Model.Date Model.Time Proofs.C06 Proofs.C02 Proofs.C09Show Proofs.C09Time Proofs.C09DateTime Proofs.C09Zoned Proofs.C08Sweeps.
 Import ListNotations.
 Open Scope Z_scope.
@@ -212,3 +213,139 @@ Theorem C20_wall_clock_refuted :
   ser_dtz_unrepaired dtz_edge = Panic.
 Proof. exact wall_clock_refuted. Qed.
 Print Assumptions C20_wall_clock_refuted.
+
+(** * the value form of the timestamp round trip: serialize . deserialize returns the value itself with
+      its fraction cut to the module's precision ([cut m a] = a with fraction f - f mod unit) -- the
+      identity on every non-leap value that is a whole number of units; Option variants alike *)
+Theorem C20_ts_roundtrip_value : forall m fmt a w, In m plain_mods -> valid_ndt a -> nonleap a -> written m a = SOk w ->
+  ts_serialize m a = Val (SOk (SI64 w)) /\ ts_deserialize m (carry fmt (SI64 w)) = Val (SOk (C20HoldsTs.cut m a)).
+Proof. exact C20HoldsTs.ts_roundtrip_value. Qed.
+Print Assumptions C20_ts_roundtrip_value.
+Theorem C20_ts_roundtrip_option_value : forall m fmt a w, In m option_mods -> valid_ndt a -> nonleap a -> written m a = SOk w ->
+  ts_serialize_option m (Some a) = Val (SOk (SSome (SI64 w))) /\
+  ts_deserialize_option m (carry fmt (SSome (SI64 w))) = Val (SOk (Some (C20HoldsTs.cut m a))) /\
+  ts_serialize_option m None = Val (SOk SNone) /\ ts_deserialize_option m (carry fmt SNone) = Val (SOk None).
+Proof. exact C20HoldsTs.ts_roundtrip_option_value. Qed.
+Print Assumptions C20_ts_roundtrip_option_value.
+Theorem C20_ts_cut_spec : forall m a, In m (plain_mods ++ option_mods) -> valid_ndt a -> nonleap a ->
+  valid_ndt (C20HoldsTs.cut m a) /\ nonleap (C20HoldsTs.cut m a) /\
+  instant (C20HoldsTs.cut m a) = instant a / unit_ns m * unit_ns m.
+Proof. exact C20HoldsTs.cut_spec. Qed.
+Print Assumptions C20_ts_cut_spec.
+Theorem C20_ts_roundtrip_identity : forall m fmt a w, In m plain_mods -> valid_ndt a -> nonleap a -> written m a = SOk w ->
+  dfrac a mod unit_ns m = 0 -> ts_deserialize m (carry fmt (SI64 w)) = Val (SOk a).
+Proof. exact C20HoldsTs.ts_roundtrip_identity. Qed.
+Print Assumptions C20_ts_roundtrip_identity.
+Theorem C20_ts_roundtrip_option_identity : forall m fmt a w, In m option_mods -> valid_ndt a -> nonleap a -> written m a = SOk w ->
+  dfrac a mod unit_ns m = 0 -> ts_deserialize_option m (carry fmt (SSome (SI64 w))) = Val (SOk (Some a)).
+Proof. exact C20HoldsTs.ts_roundtrip_option_identity. Qed.
+Print Assumptions C20_ts_roundtrip_option_identity.
+
+(** * zone-aware values with a leap-second fraction NOT on second 59 (whole-minute offset, wall-clock
+      date in range): the text written is the text of the value one second later without the leap
+      fraction, which is what comes back -- the same instant (Spec/Gregorian.v [unix_nanos]); supersedes
+      the gap named in earlier versions of this file *)
+Theorem C20_serde_roundtrip_dt_leap_off_minute : forall fmt yu ou du su fu off, repr yu ou du -> 0 <= su < 86400 ->
+  1000000000 <= fu < 2000000000 -> su mod 60 <> 59 -> -86400 < off < 86400 -> off mod 60 = 0 ->
+  Spec.Gregorian.dn_in_range (Spec.Gregorian.dn_of_yo yu ou + (su + off) / 86400) = true ->
+  exists p, ser_dtz (mk_dtz (mk_ndt du (Time.mk_time su fu)) off) = Val (SOk (SStr p)) /\
+            de_dt_fixed (carry fmt (SStr p)) = Val (SOk (mk_dtz (mk_ndt du (Time.mk_time (su + 1) (fu - 1000000000))) off)) /\
+            de_dt_utc (carry fmt (SStr p)) = Val (SOk (mk_dtz (mk_ndt du (Time.mk_time (su + 1) (fu - 1000000000))) 0)) /\
+            Spec.Gregorian.unix_nanos (Spec.Gregorian.dn_of_yo yu ou) (su + 1) (fu - 1000000000) =
+            Spec.Gregorian.unix_nanos (Spec.Gregorian.dn_of_yo yu ou) su fu.
+Proof. exact C20HoldsRt.serde_roundtrip_dt_leap_off. Qed.
+Print Assumptions C20_serde_roundtrip_dt_leap_off_minute.
+Example C20_leap_off_minute_inhabited : exists du, repr 2020 1 du /\ 45270 mod 60 <> 59 /\
+  Spec.Gregorian.dn_in_range (Spec.Gregorian.dn_of_yo 2020 1 + (45270 + 19800) / 86400) = true.
+Proof. exact C20HoldsRt.leap_off_inhabited. Qed.
+Print Assumptions C20_leap_off_minute_inhabited.
+Theorem C20_serialize_dt_leap_next_second : forall yu ou du su fu off, repr yu ou du -> 0 <= su < 86400 ->
+  1000000000 <= fu < 2000000000 -> su mod 60 <> 59 -> -86400 < off < 86400 -> off mod 60 = 0 ->
+  Spec.Gregorian.dn_in_range (Spec.Gregorian.dn_of_yo yu ou + (su + off) / 86400) = true ->
+  ser_dtz (mk_dtz (mk_ndt du (Time.mk_time su fu)) off) = ser_dtz (mk_dtz (mk_ndt du (Time.mk_time (su + 1) (fu - 1000000000))) off).
+Proof. exact C20HoldsRt.ser_dtz_next. Qed.
+Print Assumptions C20_serialize_dt_leap_next_second.
+
+(** * TimeDelta extremes: MIN, MAX, zero, a negative duration with a sub-second part are in the range
+      of C20_delta_roundtrip; one nanosecond beyond MIN / MAX is not a duration *)
+Example C20_delta_extremes :
+  C06.valid (mk_td (-9223372036854776) 193000000) /\ C06.valid (mk_td 9223372036854775 807000000) /\
+  C06.valid (mk_td 0 0) /\ C06.valid (mk_td (-2) 500000000) /\
+  td_new (-9223372036854776) 193000000 = Some (mk_td (-9223372036854776) 193000000) /\
+  td_new 9223372036854775 807000000 = Some (mk_td 9223372036854775 807000000) /\
+  td_new (-9223372036854776) 192999999 = None /\ td_new 9223372036854775 807000001 = None /\
+  (forall fmt, de_td (carry fmt (STup [SI64 (-2); SI32 500000000])) = Val (SOk (mk_td (-2) 500000000))).
+Proof. exact C20Ops.delta_extremes. Qed.
+Print Assumptions C20_delta_extremes.
+
+(** * the dispatcher: which model function answers each op *)
+Theorem C20_dispatch :
+  (forall fmt ty v, run B"sd.rt" [VInt fmt; VInt ty; v] = if fmt_ok fmt then rt fmt ty v else VBad) /\
+  (forall fmt ty s, run B"sd.read" [VInt fmt; VInt ty; VStr s] = if fmt_ok fmt && Base.Utf8.utf8_valid s then read ty s else VBad) /\
+  (forall m fmt v, run B"sd.ts" [VInt m; VInt fmt; v] = if mod_ok m && fmt_ok fmt then ts m fmt v else VBad) /\
+  (forall m fmt kind n, run B"sd.tsread" [VInt m; VInt fmt; VInt kind; VInt n] = if mod_ok m then tsread m fmt kind n else VBad) /\
+  (forall m fmt kind, run B"sd.tsnone" [VInt m; VInt fmt; VInt kind] = if mod_ok m then tsnone m fmt kind else VBad) /\
+  (forall fmt s n, run B"sd.tdread" [VInt fmt; VInt s; VInt n] = tdread fmt s n) /\
+  (forall op args, op_is op "sd.rt" = false -> op_is op "sd.read" = false -> op_is op "sd.ts" = false ->
+     op_is op "sd.tsread" = false -> op_is op "sd.tsnone" = false -> op_is op "sd.tdread" = false ->
+     run op args = VErr B"NOOP").
+Proof. exact C20Ops.dispatch. Qed.
+Print Assumptions C20_dispatch.
+(* sd.read: a string handed to a string-form deserializer is answered by the type's FromStr parser
+   (C09 / C13 / C19), its error wrapped; anything else is serde's `invalid type`, never a trap *)
+Theorem C20_read_is_from_str : forall s,
+  de_date (SStr s) = C20Ops.wrap_parse (FromStr.naive_date_from_str s) /\
+  de_time (SStr s) = C20Ops.wrap_parse (FromStr.naive_time_from_str s) /\
+  de_ndt (SStr s) = C20Ops.wrap_parse (FromStr.naive_datetime_from_str s) /\
+  de_dt_fixed (SStr s) = C20Ops.wrap_parse (FromStr.datetime_fixed_from_str s) /\
+  de_dt_utc (SStr s) = smap (fun dt => with_timezone dt 0) (C20Ops.wrap_parse (FromStr.datetime_fixed_from_str s)) /\
+  de_dt_local (SStr s) = smap (fun dt => with_timezone dt 0) (C20Ops.wrap_parse (FromStr.datetime_fixed_from_str s)) /\
+  de_wd (SStr s) = C20Ops.wrap_name EWeekday (Model.C19.wd_from_str s) /\
+  de_mo (SStr s) = C20Ops.wrap_name EMonth (Model.C19.mo_from_str s).
+Proof. exact C20Ops.read_is_from_str. Qed.
+Print Assumptions C20_read_is_from_str.
+Theorem C20_read_not_a_string : forall v, C20Ops.is_str v = false ->
+  de_date v = Val (SErr EInvalidType) /\ de_time v = Val (SErr EInvalidType) /\ de_ndt v = Val (SErr EInvalidType) /\
+  de_dt_fixed v = Val (SErr EInvalidType) /\ de_dt_utc v = Val (SErr EInvalidType) /\ de_dt_local v = Val (SErr EInvalidType) /\
+  de_wd v = Val (SErr EInvalidType) /\ de_mo v = Val (SErr EInvalidType).
+Proof. exact C20Ops.read_not_a_string. Qed.
+Print Assumptions C20_read_not_a_string.
+
+(** * the theorem over ALL ops: for every op name and every argument list outside the three recorded
+      findings ([finding_free], a decidable predicate that restricts sd.rt only: naive types 1, 2 --
+      leap-second fraction on second 59 or none; zone-aware types 3, 8, 9 -- whole-minute offset and
+      wall-clock date inside the date range), whenever the judge does not skip the case (it is in the
+      property's domain) the judge accepts the model's output.  Supersedes the per-op C20_holds_tsread /
+      C20_holds_tdread (kept above).  The judge says JBad on the model's output for the excluded
+      inputs: C20_*_refuted. *)
+Theorem C20_holds : forall op args, C20HoldsAll.finding_free op args = true ->
+  Judge.C20.judge op args (run op args) <> JSkip -> Judge.C20.judge op args (run op args) = JOk.
+Proof. exact C20HoldsAll.holds_all. Qed.
+Print Assumptions C20_holds.
+Theorem C20_never_bad : forall op args, C20HoldsAll.finding_free op args = true ->
+  HoldsLib.not_bad (Judge.C20.judge op args (run op args)).
+Proof. exact C20HoldsAll.never_bad. Qed.
+Print Assumptions C20_never_bad.
+Theorem C20_finding_free_scope :
+  (forall op args, op_is op "sd.rt" = false -> C20HoldsAll.finding_free op args = true) /\
+  (forall fmt ty v, C20HoldsAll.finding_free B"sd.rt" [fmt; VInt ty; v] = C20HoldsAll.clean_rt ty v) /\
+  (forall ty v, ty <> 1 -> ty <> 2 -> ty <> 3 -> ty <> 8 -> ty <> 9 -> C20HoldsAll.clean_rt ty v = true) /\
+  (forall s f, C20HoldsAll.clean_rt 1 (VTup [VInt s; VInt f]) = Judge.C20.plain_leap s f) /\
+  (forall y o s f, C20HoldsAll.clean_rt 2 (VTup [y; o; VInt s; VInt f]) = Judge.C20.plain_leap s f) /\
+  (forall y o s f off, C20HoldsAll.clean_rt 3 (VTup [VInt y; VInt o; VInt s; VInt f; VInt off]) =
+     (off mod 60 =? 0) && Spec.Gregorian.dn_in_range (Spec.Gregorian.dn_of_yo y o + (s + off) / 86400)).
+Proof.
+  exact (conj C20HoldsAll.finding_free_other (conj C20HoldsAll.finding_free_rt (conj C20HoldsAll.clean_rt_unrestricted
+    (conj (fun s f => eq_refl) (conj (fun y o s f => eq_refl) (fun y o s f off => eq_refl)))))).
+Qed.
+Print Assumptions C20_finding_free_scope.
+Example C20_holds_inhabited :
+  let c1 := [VInt 0; VInt 3; VTup [VInt 2020; VInt 1; VInt 45270; VInt 1500000000; VInt 19800]] in
+  let c2 := [VInt 14; VInt 0; VTup [VInt 2262; VInt 101; VInt 85636; VInt 854775807]] in
+  let c3 := [VInt 15; VInt 1; VSome (VTup [VInt 2262; VInt 101; VInt 85636; VInt 854775808])] in
+  let c4 := [VInt 1; VInt 5; VTup [VInt (-9223372036854776); VInt 193000000]] in
+  C20HoldsAll.finding_free B"sd.rt" c1 = true /\ Judge.C20.judge B"sd.rt" c1 (run B"sd.rt" c1) = JOk /\
+  Judge.C20.judge B"sd.ts" c2 (run B"sd.ts" c2) = JOk /\ Judge.C20.judge B"sd.ts" c3 (run B"sd.ts" c3) = JOk /\
+  C20HoldsAll.finding_free B"sd.rt" c4 = true /\ Judge.C20.judge B"sd.rt" c4 (run B"sd.rt" c4) = JOk.
+Proof. exact C20HoldsAll.holds_inhabited. Qed.
+Print Assumptions C20_holds_inhabited.
